@@ -55,7 +55,7 @@ func (rc *ruleCtx) parallelOnce() {
 		name := rc.jobName(j)
 		switch j.Role.Kind {
 		case "ptask":
-			rc.s.Check(j.Loop == nil && len(x.Par.Known(j.Enq, x.In.Wrapper)) == 0, "V10", rc.key(name+" enqueued once, unconditionally"), rc.pos(j.Enq), "", "a Task function is enqueued in a loop or conditionally")
+			rc.s.Check(j.Loop == nil && len(x.Par.Known(j.Enq, x.W)) == 0, "V10", rc.key(name+" enqueued once, unconditionally"), rc.pos(j.Enq), "", "a Task function is enqueued in a loop or conditionally")
 		case "slicefn", "mapfn":
 			coll := "slice"
 			endKind := "sliceend"
@@ -131,7 +131,7 @@ func (rc *ruleCtx) parallelOnce() {
 			ekey := rc.key(fmt.Sprintf("%s#%d runs once after all elements", endKind, e.Role.Task))
 			d, _ := astx.Unparen(e.Deps).(*ast.Ident)
 			switch {
-			case e.Loop != nil || e.Enq.Pos() < rs.End() || len(x.Par.Known(e.Enq, x.In.Wrapper)) != 0:
+			case e.Loop != nil || e.Enq.Pos() < rs.End() || len(x.Par.Known(e.Enq, x.W)) != 0:
 				rc.s.Bad("V10", ekey, rc.pos(e.Enq), "the End job is not enqueued exactly once after the element loop")
 			case d == nil || j.ResLoc != d.Name+"[]":
 				rc.s.Bad("V10", ekey, rc.pos(e.Enq), "the End job's Dependencies is not the slice that receives every element job: the hook can run before (or despite a failure of) some element")
